@@ -439,7 +439,7 @@ def run(tier):
     rp = l3.Replay(b, v, cs, "checks.c07:judge_l3", variants=1 if tier == "quick" else 2, drift=False)
     shapes = '{"s","sa","os","aos","aas","aaos","oas","eo","ea","xdateS","xoidS","xbinB","xdateA","xdateO","xoidA","xoidO","xbinA","xbinO","xbinS","xbinSA","xdateNL"}'
     if tier == "quick":
-        shapes = '{"s","aos","aas","ea","xdateS","xoidS","xbinB","xdateA","xdateO","xoidA","xoidO","xbinA","xbinO","xbinS","xbinSA","xdateNL"}'
+        shapes = '{"s","sa","as","aos","aas","ea","xdateS","xoidS","xbinB","xdateA","xdateO","xoidA","xoidO","xbinA","xbinO","xbinS","xbinSA","xdateNL"}'
     t2 = l3.generate("RedactorTW", "RedactorTW.cfg", cs, {"TWShapeKinds": shapes}, rp.sink, timeout=3000)
     t3 = l3.generate("RedactorEW", "RedactorEW.cfg", cs, {"EWDamaged": "TRUE"}, rp.sink, timeout=1500)
     for tt in (t2, t3):
